@@ -155,8 +155,13 @@ def classify_reject(src, out):
         if re.search(r"[0-9]\.[eE]$", pre) and post.startswith("lse"):
             return "float-dot-else"
     if kind in ("Lexical.FStringError", "Lexical.Eof", "Lexical.StringError"):
-        # a triple-quoted string literal inside a replacement field of a triple-quoted f-string
-        if re.search(r"[fF][rR]?('''|\"\"\")(?:(?!\1).)*?\{[^{}]*?('''|\"\"\")", src, re.S):
+        # a triple-quoted string literal inside a replacement field of an f-string, on the line of the error
+        # or (triple-quoted f-string) anywhere after its opening
+        line = _line_of(src, min(off, max(len(b) - 1, 0)))
+        tq = "('''|" + '"""' + ")"
+        if re.search(r"(?i)\b(f|rf|fr)['\"]", line) and re.search(r"\{[^{}]*?" + tq, line):
+            return "fstring-triple-quote-in-field"
+        if re.search(r"[fF][rR]?" + tq + r"(?:(?!\1).)*?\{[^{}]*?" + tq, src, re.S):
             return "fstring-triple-quote-in-field"
     return None
 
